@@ -344,6 +344,7 @@ func (ru *c04Run) syncOnce(front *Front, head cid.Cid, withCtxCancel bool) c04Ob
 	if ru.k.Announced {
 		tl := ru.tl
 		recvBefore := tl.count("watch.recv")
+		fwdBefore := tl.count("dist.forward")
 		err := ru.sub.Announce(context.Background(), head, ru.pi)
 		if err != nil {
 			o.err = fmt.Errorf("announce: %w", err)
@@ -365,12 +366,24 @@ func (ru *c04Run) syncOnce(front *Front, head cid.Cid, withCtxCancel bool) c04Ob
 				if tl.count("watch.recv") > recvBefore && tl.count("watch.recv") == tl.count("watch.swap.spawn")+tl.count("watch.swap.replaced") &&
 					tl.count("watch.swap.spawn") == tl.count("async.enter") && tl.count("async.enter") == tl.count("async.exit") &&
 					tl.count("event.emit.begin") == tl.count("event.emit.end") && tl.count("dist.forward") == tl.count("event.emit.end") {
-					time.Sleep(2 * time.Millisecond) // the distributor's send to the listener queue follows its tap
-					select {
-					case ev := <-ru.evs:
-						o.events = append(o.events, ev)
-						o.err = ev.Err
-					default:
+					// the distributor's send to the listener queue follows its tap: if it has forwarded a notification
+					// since this announcement was made, that notification is on its way to the listener, however busy
+					// the machine is; otherwise there is none to wait for
+					if tl.count("dist.forward") > fwdBefore {
+						select {
+						case ev := <-ru.evs:
+							o.events = append(o.events, ev)
+							o.err = ev.Err
+						case <-time.After(60 * time.Second):
+						}
+					} else {
+						time.Sleep(2 * time.Millisecond)
+						select {
+						case ev := <-ru.evs:
+							o.events = append(o.events, ev)
+							o.err = ev.Err
+						default:
+						}
 					}
 					break wait
 				}
@@ -426,7 +439,7 @@ func c04One(c *vf.Ctx, sub string, i int, env *c04Env, k c04Case) {
 			ru.cancelAt[f.At] = true
 		}
 	}
-	opts := []dagsync.Option{dagsync.BlockHook(ru.hook()), dagsync.HttpTimeout(400 * time.Millisecond)}
+	opts := []dagsync.Option{dagsync.BlockHook(ru.hook()), dagsync.HttpTimeout(1500 * time.Millisecond)}
 	if k.Seg != 0 {
 		opts = append(opts, dagsync.SegmentDepthLimit(k.Seg))
 	}
@@ -601,6 +614,15 @@ func c04One(c *vf.Ctx, sub string, i int, env *c04Env, k c04Case) {
 		} else if failed {
 			retry = ru.syncOnce(front, head, false)
 			phases = append(phases, fmt.Sprintf("retry: err=%v", retry.err))
+		}
+		// (no fault is injected any more and the publisher answers from memory: a request that runs into the HTTP
+		// client's timeout now is the machine's doing — busy with other work — not the library's; the retry is repeated,
+		// and only a timeout that persists counts)
+		for try := 0; try < 2 && failed && retry.err != nil && (strings.Contains(retry.err.Error(), "Client.Timeout exceeded") || strings.Contains(retry.err.Error(), "context deadline exceeded")); try++ {
+			c.Inc("retries_repeated_after_a_client_timeout")
+			time.Sleep(time.Duration(200*(try+1)) * time.Millisecond)
+			retry = ru.syncOnce(front, head, false)
+			phases = append(phases, fmt.Sprintf("retry repeated after a client timeout: err=%v", retry.err))
 		}
 		if failed {
 			if retry.err != nil {
